@@ -96,6 +96,12 @@ func compressible(r *vt.Rand, n int) []byte {
 	return out[:n]
 }
 
+// the image data (JPEG inside zlib) is the same in every stress file
+var (
+	jpegOnce  sync.Once
+	jpegFlate []byte
+)
+
 func buildStressFile(seed uint64) (*stressFile, error) {
 	r := vt.NewRand(seed)
 	// The Writer selects the cipher from the version (see wprog.Program.Cipher):
@@ -239,18 +245,21 @@ func buildStressFile(seed uint64) (*stressFile, error) {
 	// an image: JPEG data inside FlateDecode.  Its decoder runs a producer
 	// goroutine on top of the Flate layer; operations close it early.
 	{
-		img := image.NewGray(image.Rect(0, 0, 1024, 64))
-		copy(img.Pix, r.Bytes(len(img.Pix)))
-		var jbuf bytes.Buffer
-		if err := jpeg.Encode(&jbuf, img, &jpeg.Options{Quality: 90}); err != nil {
-			return nil, err
-		}
+		jpegOnce.Do(func() {
+			img := image.NewGray(image.Rect(0, 0, 512, 64))
+			copy(img.Pix, vt.NewRand(18).Bytes(len(img.Pix)))
+			var jbuf bytes.Buffer
+			if err := jpeg.Encode(&jbuf, img, &jpeg.Options{Quality: 90}); err != nil {
+				panic(err)
+			}
+			jpegFlate = damagedFlate(jbuf.Bytes(), "good")
+		})
 		f.image = w.Alloc()
 		stm, err := w.OpenStream(f.image, pdf.Dict{"Filter": pdf.Array{pdf.Name("FlateDecode"), pdf.Name("DCTDecode")}})
 		if err != nil {
 			return nil, err
 		}
-		if _, err := stm.Write(damagedFlate(jbuf.Bytes(), "good")); err != nil {
+		if _, err := stm.Write(jpegFlate); err != nil {
 			return nil, err
 		}
 		if err := stm.Close(); err != nil {
@@ -301,7 +310,7 @@ func expandOps(c *StressCase, f *stressFile) [][]stressOp {
 		for i := 0; i < c.Ops; i++ {
 			k := kinds[r.Intn(len(kinds))]
 			// the heavy kinds are made rarer
-			if (k == opOwnFile || k == opCMap) && r.Intn(4) != 0 {
+			if (k == opOwnFile || k == opCMap || k == opImageEarlyClose) && r.Intn(4) != 0 {
 				k = kinds[r.Intn(len(kinds))]
 			}
 			op := stressOp{kind: k}
